@@ -1,7 +1,7 @@
 #!/bin/sh
 # usage: tools/with_patch.sh <patch.diff> <command...> : apply a patch to /repo, run the command, always revert
 P="$1"; shift
-git -C /repo apply "$P" || { echo "patch does not apply"; exit 3; }
+git -C /repo apply "$(readlink -f "$P")" || { echo "patch does not apply"; exit 3; }
 "$@"; rc=$?
 git -C /repo checkout -- . 
 exit $rc
